@@ -87,6 +87,8 @@ def gen_model(r, *, budget=6000, max_T=4, force=None):
         n_cs = min(n_cs, 1)
     if force & {"log", "cs"}:
         n_cs = max(n_cs, 1)
+    if "cs2" in force:
+        n_cs = 2          # two continuous states (sizes pairwise different, in random order)
     names = NAMES[:]
     r.shuffle(names)
     names = iter(names)
@@ -122,7 +124,7 @@ def gen_model(r, *, budget=6000, max_T=4, force=None):
         # shrink: drop a variable of the largest family
         if n_cc > 1:
             n_cc -= 1
-        elif n_cs > 1:
+        elif n_cs > 1 and "cs2" not in force:
             n_cs -= 1
         elif n_ds > 2:
             n_ds -= 1
